@@ -515,30 +515,33 @@ def domain_envs(exprs, base_env, cap=1024):
 
 
 def stmt_features(st):
-    """(necessary-syntactic paren labels, string features) over the whole statement expression."""
+    """(paren labels the reference grammar needs syntactically, those it needs semantically, string features) over
+    the whole statement expression."""
     rhs = L.stmt_rhs(st)
     if rhs is None:
-        return [], []
-    syn, _ = L.necessary_parens(rhs)
+        return [], [], []
+    syn, sem = L.necessary_parens(rhs)
     sf = set()
     for s in L.all_strings(rhs):
         for f in L.string_features(s):
             sf.add(f)
-    return syn, sorted(sf)
+    return syn, sem, sorted(sf)
 
 
 def classify_unparsable(old_stmts, new_values_strs):
-    feats = set()
+    """Which construct of the statements that were re-printed explains an unparsable result: parentheses whose
+    loss alone breaks the syntax; failing that, parentheses whose loss changes the reading; a quote in a string."""
+    feats, weak = set(), set()
     for st in old_stmts:
-        syn, sf = stmt_features(st)
-        for x in syn:
-            feats.add(x)
+        syn, sem, sf = stmt_features(st)
+        feats |= set(syn)
+        weak |= set(sem)
         if 'quote' in sf:
             feats.add('string-quote')
     for s in new_values_strs:
         if "'" in s:
             feats.add('string-quote')
-    return '+'.join(sorted(feats)) or 'unexplained'
+    return '+'.join(sorted(feats or weak)) or 'unexplained'
 
 
 def arg_pairs(oc, nc, what, key):
